@@ -10,21 +10,29 @@ MANIFEST = {
                      "the atomic reference-count steps, any number of threads/handles/schedules; single-threaded API "
                      "histories as the special case) + differential correspondence of the model with the real String / "
                      "Variant / Xml::Variant / RefCount::Ptr code under a ledger allocator and a controlled scheduler",
-        "text": "Theorems (Props.lean: mt_safe, mt_safe_nested, mt_embedded_write_sole, mt_embedded_take_on_release, mt_embedded_stable, "
-                "mt_ref_inflight, mt_step_safe, mt_write_sole, mt_view_stable, mt_sched_safe for all thread counts, programs and schedules, "
-                "including handles embedded in payloads; ref_counts_handles, freed_once_after_last, no_inplace_write_while_shared, "
-                "st_write_sole, st_quiet for all single-threaded API histories; apiRun_total_partial / apiStep_total_partial: well-formed "
-                "String/Variant/Xml::Variant calls are never rejected by the model) over every reachable state of the Lean model (heap of counted blocks, handle slots owned by threads, "
-                "atomic steps inc / dec-and-test / plain counter read / alloc / in-place write / free): counter = number of "
-                "handles (in-flight increments are handles in scratch slots), no step touches a released block, every block is "
-                "released at most once and exactly when its last handle has gone, an in-place write happens only through the sole "
-                "handle. The model is tied to the current headers on every run: identical op lines are executed by the compiled "
-                "model and by a harness over the real classes whose allocator is a ledger (per payload: live flag, white-box "
-                "counter, number of releases; per handle: designated payload and content), single-threaded (exhaustive small "
-                "scope + random histories) and multi-threaded (2-3 threads with random programs over their own handles, atomics "
-                "and hooked counter reads as scheduling points, random schedules and all schedules of the first 10 points), "
-                "comparing per-step counter values and final states; an independent Python oracle checks value semantics and "
-                "ledger consistency on the implementation's output.",
+        "text": "Theorems (Props.lean) over every reachable state of the Lean model (heap of counted blocks, handle slots owned by "
+                "threads, atomic steps inc / dec-and-test / plain counter read / alloc / in-place write / free): mt_safe, mt_ref_inflight, "
+                "mt_step_safe, mt_write_sole, mt_view_stable, mt_sched_safe, mt_quiescent_no_leak for all thread counts, programs and "
+                "schedules the step guards admit; enabledness under interleaving (mt_frame, mt_plan_stable, mt_step_enabled, "
+                "mt_call_enabled_pre/post/done: a thread with a pending String/Variant/Xml::Variant call always has an enabled step, "
+                "whatever the other threads do); single-threaded ref_counts_handles, freed_once_after_last, "
+                "no_inplace_write_while_shared, st_write_sole, st_quiet for all accepted API histories, with apiRun_total_partial / "
+                "apiRun_total_noNext: histories of String/Variant/Xml::Variant calls and of RefCount::Ptr `= new`/copy/operator=/`= Ptr()`/"
+                "swap on objects WITHOUT a next handle are never rejected (calls that create or walk `next` handles: conditional "
+                "theorems + concrete examples only); no_use_after_drop: no String/Variant/Xml::Variant step list reads a handle between "
+                "the decrement through it and the store that overwrites it (the model's `dec` forgets the pointer at once; for the "
+                "RefCount::Ptr calls this order is validated by the correspondence run only). Nested payloads are covered PARTIALLY: "
+                "ONE embedded handle per block, modelled for RefCount objects only (mt_safe_nested, mt_embedded_write_sole, "
+                "mt_embedded_take_on_release, mt_embedded_stable); NOT covered by any C09 theorem: several embedded handles per payload "
+                "(Variants inside list/array/map payloads, Xml element children), in-place writes through an embedded handle, the String "
+                "inside a Variant/Xml::Variant box (flat content in the model), hence the destructor cascade of a shared container "
+                "payload under interleaving. The model is tied to the current headers on every run: identical op lines are executed by "
+                "the compiled model and by a harness over the real classes whose allocator is a ledger (per payload: live flag, white-box "
+                "counter, number of releases; per handle: designated payload and content), single-threaded (exhaustive small scope + "
+                "random histories) and multi-threaded (2-3 threads with random programs over their own handles, atomics and hooked "
+                "counter reads as scheduling points, random schedules and all schedules of the first 10 points), comparing per-step "
+                "counter values and final states; an independent Python oracle checks value semantics, the object graph and ledger "
+                "consistency on the implementation's output.",
         "note": "Trusted: Lean kernel + the three standard axioms; the hand translation of the API calls into step sequences "
                 "(Model.lean pre/post), validated by the correspondence run only; sequentially consistent atomics (__sync_* are "
                 "full barriers) - TSO/compiler reordering of the plain counter reads is not modelled; payload content is flat "
@@ -654,7 +662,7 @@ def check(ctx):
         ctx.cov["open_statements"] = ["payloads with several embedded handles (Variants inside list/map payloads, Xml element children), in-place writes "
                                       "through an embedded handle and the cross-kind calls Variant = String variable / String = variant.toString() "
                                       "(Props.lean OPEN block)",
-                                      "apiRun_total for the RefCount::Ptr calls that walk through embedded handles (Props.lean OPEN block)"]
+                                      "totality and no_use_after_drop for the RefCount::Ptr calls that create or walk `next` handles (Props.lean OPEN blocks)"]
         ctx.cov["exhaustive_scope"] = (f"single-threaded length<={depth} per kind: {len(ex)} histories; "
                                        f"schedules: all of {{t1,t2}}^{d2} for {len(mte) // 2 ** d2} scenarios, all of {{t1,t2,t3}}^{d3} for {len(mte3) // 3 ** d3} scenarios")
         ops = {}
